@@ -7,9 +7,10 @@ structure DSt where
   st : St := {}
   keys : List Key := []
   labels : List Nat := []     -- every label mentioned by a `block` op of this case, ascending
-  /-- which `put` the code under test contains (probed by the harness on a 4-key trie at start-up):
-      `false` = as in /repo today (split case aliases the children array), `true` = repaired -/
-  fixed : Bool := false
+  /-- which `put` the model runs: PINNED to `true` = the code in /repo since fix fb6e64c (split case copies the
+      children slice).  `variant asis` (the code before the fix) is only used by legacy witness scripts; the harness
+      never sends it — a code under test that aliases again breaks the correspondence instead of being followed. -/
+  fixed : Bool := true
 
 def keyOfHex (hex : String) : Key := ("0x" ++ hex).toList.map (·.toNat)
 
